@@ -61,6 +61,21 @@ def tc_isinstance(tc, typ):
 MODULE = [None]      # reference_algebra module (set by run)
 
 
+def _module_dict(name):
+  """{key: value} of a module-level dict constant of reference_algebra."""
+  if MODULE[0] is None:
+    return None
+  from sa import tables as _t
+  d = _t.module_constant(MODULE[0], name)
+  if d is None:
+    return None
+  try:
+    v = _t.const_value(d)
+  except AnalysisError:
+    return None
+  return v if isinstance(v, dict) else None
+
+
 def hooks(rank):
   def call(node, st, interp):
     t = call_tail(node)
@@ -71,8 +86,11 @@ def hooks(rank):
       if isinstance(args[0], TC):
         return args[0]
     if t == 'isinstance' and len(node.args) == 2:
-      typs = [(dotted(e) or '').split('.')[-1] for e in (
-          node.args[1].elts if isinstance(node.args[1], ast.Tuple) else [node.args[1]])]
+      typs = []
+      for e in (node.args[1].elts if isinstance(node.args[1], ast.Tuple) else [node.args[1]]):
+        v_ = interp.value(e, st) if isinstance(e, ast.Name) and e.id in st.env else None
+        typs.append(v_.text.split('.')[-1] if isinstance(v_, Sym) else
+                    (dotted(e) or '').split('.')[-1])
       if isinstance(args[0], Ref):
         return Const('TypeReference' in typs)
       if isinstance(args[0], TC):
@@ -119,6 +137,12 @@ def hooks(rank):
     return NotImplemented
 
   def compare(op, l, r, st):
+    if isinstance(l, TC) and isinstance(r, Sym) and isinstance(op, (ast.In, ast.NotIn)):
+      # membership in a module-level table keyed by the atomic type names
+      tab = _module_dict(r.text)
+      if tab is not None:
+        inn = l.cls in tab
+        return inn if isinstance(op, ast.In) else not inn
     if isinstance(l, TC) and isinstance(r, Const) and isinstance(r.v, str):
       eq = l.cls == r.v
       if isinstance(op, ast.Eq):
@@ -167,9 +191,26 @@ def hooks(rank):
   def attr(node, st, interp):
     return NotImplemented
 
-  def loop(node, st):
-    return 'skip'     # chain compression: no effect on the abstract classes
-  return dict(call=call, compare=compare, store=store, loop=loop, attr=attr)
+  def expr(node, st, interp):
+    # TABLE[x] for a module-level dict keyed by the atomic type names
+    if isinstance(node, ast.Subscript) and isinstance(node.value, ast.Name):
+      tab = _module_dict(node.value.id)
+      key = interp.value(node.slice, st)
+      if tab is not None and isinstance(key, TC) and key.cls in tab:
+        return Const(tab[key.cls])
+    return NotImplemented
+
+  def loop_policy(node, st):
+    # a loop over a literal table of the module is run row by row, any other
+    # loop is chain compression and has no effect on the abstract classes
+    if isinstance(node, ast.For) and isinstance(node.iter, ast.Name) and MODULE[0] is not None:
+      from sa import tables as _t
+      d = _t.module_constant(MODULE[0], node.iter.id)
+      if isinstance(d, (ast.Tuple, ast.List)):
+        return 'unroll'
+    return 'skip'
+
+  return dict(call=call, compare=compare, store=store, loop=loop_policy, attr=attr, expr=expr)
 
 
 def rank_table(repo):
